@@ -121,8 +121,30 @@ def alpha_plan(ck):
     return [(a, 4) for a in ALPHAS]
 
 
-def full_pool(ck, soups=None, mutants=None):
+RENDER_GENS = [("Gen_Render", "Gen_Render_bfs", ["YRender.tla", "YRenderScalar.tla", "YRenderBlock.tla"]),
+               ("Gen_Scalar", "Gen_Scalar_quick", ["YRenderScalar.tla"]),
+               ("Gen_Block", "Gen_Block_quick", ["YRenderBlock.tla"]),
+               ("Gen_Damage", "Gen_Damage_bfs", ["YRender.tla", "YRenderScalar.tla", "YRenderBlock.tla", "YDamage.tla"]),
+               ("Gen_Json", "Gen_Json_bfs", ["YJson.tla"])]
+
+
+def rendered_pool(ck):
+    """Pool family 2 (DESIGN 7.0): every text the reference generators render (well-formed by
+    construction, damaged, JSON), from the cached exhaustive configurations."""
+    files = []
+    for mod, cfg, deps in RENDER_GENS:
+        d = (PIPE_DEPS if mod != "Gen_Json" else []) + deps
+        m = tlc_cached(ck, mod, cfg, d, workers=8, keep_out=True, timeout=3 * 3600)
+        out = ck.wd("rendered_%s.ndjson" % mod)
+        vh(["tlc2pool", "--in", m["out"], "--out", out, "--origin", "rendered:" + mod, "--dedupe", "1"])
+        files.append(out)
+    return files
+
+
+def full_pool(ck, soups=None, mutants=None, rendered=False):
     files = pipeline_inputs(ck, alpha_plan(ck)) + [base_pool(ck, soups, mutants)]
+    if rendered:
+        files += rendered_pool(ck)
     return cat(files, ck.wd("pool.ndjson"))
 
 
@@ -192,6 +214,23 @@ def c01(ck):
     ck.evaluations += s["runs"]
     ck.distinct += len(set(l for l in open(pool)))
     recs = read_ndjson(out)
+    # the rendered family (well-formed by construction, damaged, JSON): reduced configuration matrix in the quick tier
+    rp = cat(rendered_pool(ck), ck.wd("pool_rendered.ndjson"))
+    out2 = ck.wd("c01r.ndjson")
+    s2, crash = run_recorder(ck, ["c01", "--pool", rp, "--out", out2] + (["--matrix", "tiny"] if ck.tier == "quick" else []), out2, timeout=5400)
+    if crash:
+        key = "crash:" + json.dumps(crash["cur"].get("t", ""))
+        ck.violation(key, "the process running the real code died or timed out (rc=%s) on cfg %s" % (crash["rc"], crash["cur"].get("cfg")), crash)
+        return
+    ck.evaluations += s2["runs"]
+    ck.distinct += len(set(l for l in open(rp)))
+    recs2 = read_ndjson(out2)
+    byl = {}
+    for r in recs + recs2:
+        if r["k"] == "WORK" and (r["len"] not in byl or byl[r["len"]]["work"] < r["work"]):
+            byl[r["len"]] = r
+    recs = [r for r in recs + recs2 if r["k"] != "WORK"] + [byl[k] for k in sorted(byl)]
+    s["worst_ratio"] = max(s["worst_ratio"], s2["worst_ratio"])
     for r in recs:
         if r["k"] == "BAD":
             ck.violation("panic:" + json.dumps(r["t"]) + ":" + r["cfg"], "real code panicked/spun on %r via %s: %s" % (r["t"][:80], r["cfg"], r["panic"][:200]), r)
@@ -220,7 +259,7 @@ def c02(ck):
         raise ToolError("MC_ParserPDA: invariant %s violated inside the model; see %s" % (m["violated"], m["out"]))
     ck.extra["pda_states"] = m["states"]
     # (ii)+(iii) scanner+parser model over all small texts, replayed; pool judged by the acceptor
-    pool = full_pool(ck)
+    pool = full_pool(ck, rendered=True)
     pipeline_trace(ck, pool, 1500 if ck.tier == "quick" else 30000)
     out = ck.wd("c02.ndjson")
     s, crash = run_recorder(ck, ["c02", "--pool", pool, "--out", out], out)
